@@ -329,6 +329,7 @@ def q9(x: int, y: int) -> int:
 """,
     """
 def q10(x: int, y: int) -> int:
+    # enumerate: x     (six float comparisons on the input: the solver enumerates x instead of carrying it through floating-point terms)
     t = 2.0
     r = 0
     if x <= t:
